@@ -19,7 +19,7 @@ from .. import paths, storewalk, tables
 from ..model import AnalysisError, Project, self_attr, walk_no_nested
 from ..report import Result, ctx_of
 from ..tables import RP
-from .common import site, src
+from .common import check_ctor_wiring, ctor_wiring, site, src
 from .c13 import belt_store_classes
 
 PROP = 'C12'
@@ -37,7 +37,17 @@ def run(p: Project, tier: str) -> Result:
     r.not_decided = ['order of exit under interrupts / resumption', 'actual spacing when a reservation is used later than it was granted',
                      'exact travel time = length / speed when the destination never blocks', 'capacity (C01) and FIFO binding (C06) are decided there']
     check_spacing(p, r)
+    check_one_grant_per_sweep(p, r)
     check_delay(p, r)
+    r.ctx = ''
+    r.rule('C12.R4', 'each conveyor hands its configured speed / slot delay unchanged to its belt store', 2)
+    for ci in tables.edge_classes(p):
+        if ci.name != 'ConveyorBelt':
+            continue
+        attr, skeys = tables.edge_store_attr(p, ci)
+        _call, got = ctor_wiring(p, ci, attr)
+        want = {k: k for k in ('speed', 'delay') if k in got} or {'speed': 'speed'}
+        check_ctor_wiring(p, r, 'C12.R4', ci, attr, want, 'travel time and spacing are computed by the store from this value')
     return r
 
 
@@ -106,6 +116,42 @@ def check_spacing(p, r):
                                  'one instant are all granted and their items enter at the same instant', src(fi.module), fi.node.lineno, bad_e.describe())
         else:
             r.ok('C12.R1', k2, 'one admission per instant', src(fi.module), fi.node.lineno)
+
+
+def check_one_grant_per_sweep(p, r):
+    """The spacing test of a non-empty belt compares the clock with the entry time of items[-1] - the last item that *entered*.  A granted reservation
+    has not entered yet, so a second grant in the same sweep of the queue passes the very same test: `_trigger_reserve_put` therefore serves at most
+    one request per call on a belt store (the next one is looked at when the put of the first has made its item items[-1])."""
+    seen = set()
+    for s in belt_store_classes(p):
+        r.ctx = ctx_of(s)
+        fi = s.methods.get('_trigger_reserve_put')
+        if fi is None or fi.key in seen:
+            continue
+        seen.add(fi.key)
+        r.analysed_functions.add(fi.key)
+        key = f'{fi.key}::spacing-gate[one grant per sweep]'
+        ex = paths.Explorer(p, s.ci.key, tracked=set(s.lists), atomic={m for m in s.methods if m not in ('_trigger_reserve_put', '_do_reserve_put')},
+                            unroll=2, interrupt_edges=False)
+        worst, wpa, n = 0, None, 0
+        for pa in ex.paths(fi):
+            if pa.raises:
+                continue
+            n += 1
+            g = sum(1 for e in pa.events if e.kind == 'op' and e.list == RP and e.op in ('append', 'insert'))
+            if g and any(e.kind == 'loopcut' and e.fi is not None and e.fi.key == fi.key for e in pa.events):
+                g = max(g, 2)           # the sweep goes on after a grant
+            if g > worst:
+                worst, wpa = g, pa
+        r.paths += n
+        if worst == 0:
+            r.fail('C12.R1', key, 'no granting path through _trigger_reserve_put', src(fi.module), fi.node.lineno)
+        elif worst > 1:
+            r.fail('C12.R1', key, 'one sweep of the queue can grant two space reservations: the second is tested against the same items[-1] as the first '
+                                  '(whose item has not entered yet), so two items enter the belt in the same instant, closer than one item length apart',
+                   src(fi.module), fi.node.lineno, wpa.describe())
+        else:
+            r.ok('C12.R1', key, f'at most one grant per call on {n} path(s)', src(fi.module), fi.node.lineno)
 
 
 def norm_product(n):
